@@ -319,6 +319,30 @@ impl Tracer {
             |v| v.data.map_or(-1, i64::from),
             |c| c.data.map_or(-1, i64::from),
         );
+        let periods = periods_of(dt);
+        let mut verts = verts;
+        if !periods.is_empty() {
+            use delaunay::topology::traits::topological_space::TopologicalSpace;
+            let mut dom = [0f64; D];
+            dom.copy_from_slice(&periods);
+            let space = delaunay::topology::spaces::toroidal::ToroidalSpace::<D>::new(dom);
+            let by_id: std::collections::HashMap<i64, [f64; D]> =
+                tds.vertices().map(|(_, v)| (self.vid(v.uuid()), *v.point().coords())).collect();
+            for v in verts.iter_mut() {
+                let id = v["id"].as_i64().unwrap();
+                let c = by_id[&id];
+                let inbox = (0..D).all(|j| c[j] >= 0.0 && c[j] < periods[j]);
+                let mut w = c;
+                space.canonicalize_point(&mut w);
+                let idem = (0..D).all(|j| w[j] == c[j]);
+                v["box"] = json!(inbox);
+                v["idem"] = json!(idem);
+            }
+        }
+        let unit = pow2(self.s);
+        let lat: Vec<i64> = periods.iter().map(|p| (p / unit).round() as i64).collect();
+        let mut cfg = cfg_of(dt);
+        cfg["L"] = json!(lat);
         json!({
             "live": true,
             "D": D,
@@ -327,7 +351,7 @@ impl Tracer {
             "gen": (tds.generation() % (1 << 30)) as i64,
             "verts": verts,
             "cells": cells,
-            "cfg": cfg_of(dt),
+            "cfg": cfg,
         })
     }
 
@@ -374,6 +398,14 @@ pub fn cfg_of<K: Kern<D>, const D: usize>(dt: &Dt<K, D>) -> Value {
         "cp": cp,
         "topo": format!("{:?}", dt.topology_kind()),
     })
+}
+
+/// toroidal periods (in f64) of the object's global topology, empty if not toroidal
+pub fn periods_of<K: Kern<D>, const D: usize>(dt: &Dt<K, D>) -> Vec<f64> {
+    match dt.global_topology() {
+        delaunay::topology::traits::topological_space::GlobalTopology::Toroidal { domain, .. } => domain.to_vec(),
+        _ => vec![],
+    }
 }
 
 /// first identifier of a Debug rendering = the enum variant name
